@@ -47,7 +47,7 @@ def lookback_candles(spec: Dict) -> int:
     k = spec["kind"]
     p = kw.get("period", 2)
     if k == "MACD":
-        return kw["slow_period"] + kw["signal_period"] + 4
+        return max(kw["slow_period"], kw["fast_period"]) + kw["signal_period"] + 4     # the constructor reorders reversed periods
     if k == "STOCH":
         return p + kw["slow_period"] + kw["smoothing_k"] + 4
     if k == "TSI":
@@ -67,6 +67,11 @@ def falsify_readings(ctx, case: Dict) -> bool:
     from .. import indicators as X
     spec, rows, init, chunks, cfg = case["spec"], case["rows"], case["init"], case["chunks"], case["cfg"]
     bad = None
+    # the clause is about runs in which every new candle still has its look-back inside the window
+    if len(rows) > 1:
+        step = min(b["ts"] - a["ts"] for a, b in zip(rows, rows[1:]))
+        if step > 0 and cfg["lifespan"] < lookback_candles(spec) * step:
+            return False
     try:
         with core.time_limit(40):
             trimmed = X.build(spec, X.mk_rows(init), cfg)
